@@ -477,7 +477,7 @@ func ExtractReversedAddr(domain string) (pref netip.Prefix, err error) {
 		return netip.Prefix{}, ErrNotAReversedSubnet
 	}
 
-	if domLen := len(domain); domLen <= sufLen || domain[domLen-sufLen] == '.' {
+	if domLen := len(domain); domLen < sufLen || domain[domLen-sufLen] == '.' {
 		arpa := domain[indexFirstLabel(domain):]
 
 		return parseSubnet(arpa)
